@@ -50,7 +50,7 @@ LEVEL_NOTE = ("The model describes helpers.knot_removal after fixes/C06-knot-rem
               "sampled correspondence check (tolerance 1e-9). Shape preservation in the theorems is stated on control nets (insertion of the "
               "removed knot gives back the net); its equivalence with equality of evaluated points is C04's insertion theorem.")
 # functions of the numerical core this property rests on that are also tied by the translator (tie theorems: Proofs/GenTie*.v, restated in Props/)
-TRANSLATED = ["helpers.find_span_linear", "helpers.find_spans", "helpers.find_multiplicity", "helpers.knot_removal_kv", "helpers.knot_insertion", "helpers.knot_insertion_kv"]
+TRANSLATED = ["helpers.find_span_linear", "helpers.find_spans", "helpers.find_multiplicity", "helpers.knot_removal_kv", "helpers.knot_insertion", "helpers.knot_insertion_kv", "helpers.knot_removal", "helpers.knot_removal_alpha_i", "helpers.knot_removal_alpha_j"]
 TECHNIQUE = "Coq proof (field algebra on the Eq. 5.28 sweeps, list induction) + Gallina model executed by vm_compute against geomdl outputs + exact Fraction oracle"
 
 
